@@ -5,7 +5,7 @@ fresh in the caller are dropped)."""
 import ast
 from typing import Dict, FrozenSet, List, Optional, Set, Tuple
 
-from ..astutil import unparse, short, walk_local, const_value
+from ..astutil import unparse, short, walk_local, const_value, norm_text
 from ..cfg import cfg_of
 from ..srcmodel import FuncInfo
 from ..effects import Effects, Write, RaiseSite, exc_is_subclass
@@ -60,12 +60,19 @@ def defensive_guard(r: RaiseSite) -> bool:
     return all(any(m in gt for m in SHAPE_MARKERS) for gt in guards[-1:])
 
 
+def _owner_fn_node(f: FuncInfo):
+    g = f
+    while g.parent is not None:
+        g = g.parent
+    return g.node
+
+
 def wkey(w: Write) -> str:
-    return f"{w.func.qualname}: {short(w.node, 80)}"
+    return f"{w.func.qualname.split('@')[0]}: {norm_text(w.node, w.func.node, 80)}"
 
 
 def rkey(r: RaiseSite) -> str:
-    return f"{r.func.qualname}: {short(r.node, 70)}"
+    return f"{r.func.qualname.split('@')[0]}: {norm_text(r.node, r.func.node, 70)}"
 
 
 class Atom:
